@@ -382,16 +382,28 @@ def r17_6(ctx):
     ctx.need(vals, "no assignment to Compiler.parser found")
     for fi, v in vals:
         ctx.check("Compiler.parser is the Lark instance itself", lark_call(v) or (isinstance(v, ast.Constant) and v.value is None), "self.parser = Lark(...)", U(v)[:80], fn_where(idx, fi))
-    # ... and the text handed to .parse() is the caller's text
+    text_reaches_parser_unmodified(ctx)
+
+
+def text_reaches_parser_unmodified(ctx):
+    """the text handed to .parse() is the caller's text: the parameter itself, never re-bound on the way (no trimming, no normalising -
+    what the parser does not get, nobody translates and nobody rejects)"""
+    idx = get_index(ctx.env)
+    n = 0
     for q, recv in (("Compiler.compile_c_stmt", "self.parser"), ("Compiler.compile_sub_routine", "self.parser")):
         if not idx.has_func(q):
             continue
         fi = idx.func(q)
-        pcs = [n for n in ast.walk(fi.node) if isinstance(n, ast.Call) and isinstance(n.func, ast.Attribute) and n.func.attr == "parse" and U(n.func.value) == recv]
+        pcs = [n_ for n_ in ast.walk(fi.node) if isinstance(n_, ast.Call) and isinstance(n_.func, ast.Attribute) and n_.func.attr == "parse" and U(n_.func.value) == recv]
         params = {a.arg for a in fi.node.args.args}
         for c in pcs:
-            ok = len(c.args) == 1 and isinstance(c.args[0], ast.Name) and c.args[0].id in params and not c.keywords
-            ctx.check(f"{q} parses its text argument unmodified", ok, "self.parser.parse(<parameter>)", U(c)[:80], fn_where(idx, fi), nontrivial=False)
+            n += 1
+            rebound = {t.id for n_ in ast.walk(fi.node) for t in ast.walk(n_) if isinstance(n_, (ast.Assign, ast.AugAssign, ast.AnnAssign)) and isinstance(t, ast.Name) and isinstance(t.ctx, ast.Store)
+                       and t.id in params and n_.lineno < c.lineno}
+            ok = len(c.args) == 1 and isinstance(c.args[0], ast.Name) and c.args[0].id in params and not c.keywords and c.args[0].id not in rebound
+            ctx.check(f"{q} parses its text argument unmodified", ok, "self.parser.parse(<parameter>), the parameter never assigned to",
+                      U(c)[:60] + (f"; parameter {sorted(rebound)} is re-bound before" if rebound else ""), fn_where(idx, fi), nontrivial=False)
+    ctx.need(n >= 2, "parse() calls of the Compiler not found")
 
 
 @rule("R17.7", "C17", "the tree filed under an instruction's name is the tree of that instruction's text, whatever the pool's schedule: results are keyed by the name each task returns, never by arrival position", min_instances=8)
